@@ -13,6 +13,7 @@ import UnytModel.RegistryC12Conv
 import UnytModel.Generated.RegistryC12Cfg
 import UnytModel.RegistryC12Alias
 import UnytModel.RegistryC12Macro
+import UnytModel.RegistryC12AliasMacro
 import UnytModel.Generated.RegistryC12Alias
 
 namespace Unyt
@@ -161,6 +162,20 @@ def stepC12 (st : C12State) (fields : List String) : Option (C12State × String)
     let cells := st.areg.handles.map fun hd =>
       s!"{hd.cacheRef}:{hd.dsetRef}:{",".intercalate ((st.areg.caches hd.cacheRef).map (·.1))}:{",".intercalate (st.areg.dsets hd.dsetRef)}"
     some (st, s!"ok\t{"|".intercalate cells}")
+  | ["c12a.modqu", i, sym, v, q] =>
+    match i.toNat?, fb v with
+    | some i, some x =>
+      let (a', out) := amstep st.acfg st.cfg st.pre st.parse st.areg i (.modifyQu sym x q)
+      let st' := { st with areg := a' }
+      some (st', st'.outStr out)
+    | _, _ => some (st, "bad-op")
+  | ["c12a.defunit", i, sym, v, q, p] =>
+    match i.toNat?, fb v, parseBool p with
+    | some i, some x, some pf =>
+      let (a', out) := amstep st.acfg st.cfg st.pre st.parse st.areg i (.defineUnit sym x q pf)
+      let st' := { st with areg := a' }
+      some (st', st'.outStr out)
+    | _, _, _ => some (st, "bad-op")
   | "c12a.call" :: i :: op :: args =>
     match i.toNat?, parseOpC12 (op :: args) with
     | some i, some o =>
